@@ -17,6 +17,9 @@ R05d End block ends an *active* block: visit_EndBlockNode chooses among the lock
 R05e no block, no name: when the interpreter is replaced (Engine._stop_interpreter, reached by Stop and Restart) the Block tag is
      written None on every path - the new interpreter has no active block, and a restarted run would otherwise execute its
      root-level lines under the name of the block that was active when the previous run ended.
+R05f an aborted handler's blocks are released: _abort_block_interrupts releases (lock_acquired = False) the blocks below every
+     interrupt it unregisters - a block started by a Watch/Alarm body can only be released by that handler's generator, which is
+     gone after the abort; left locked, every later Block waits for ever.
 Decides these shapes; the single-chain invariant over all reachable interpreter states is data-dependent.
 """
 from __future__ import annotations
@@ -217,6 +220,19 @@ def run(ctx) -> None:
         else:
             ctx.fail("R05c", vb, lp.ast, inst, f"the iterated expression `{src[1]}` is not derived from the lock flags")
     _r05d(ctx, pi)
+    ctx.rule("R05f", "blocks started by an aborted interrupt are released")
+    abf = pi.methods["_abort_block_interrupts"]
+    ctx.analysed(abf)
+    gab = cfg_of(abf)
+    unreg = [n for n in gab.nodes if n.ast is not None and any(call_attr(c) == "_unregister_interrupt" for c in n.calls())]
+    rel_ = [n for n in gab.nodes if n.kind == "stmt" and any(t.attr == "lock_acquired" and isinstance(v, ast.Constant) and v.value is False
+                                                              for t, v, st in assigned_attrs(n.ast))]
+    inst = "_abort_block_interrupts: locks of blocks below an unregistered interrupt are released"
+    if unreg and rel_ and all(any(gab.search([u.id], lambda n, r=r: n.id == r.id, follow_exc=False) is not None for r in rel_) for u in unreg):
+        ctx.ok("R05f", inst)
+    else:
+        ctx.fail("R05f", abf, (unreg[0].ast if unreg else abf.node), inst, "the handler is dropped but a block its body had started keeps lock_acquired: "
+                 "`End blocks` (or End block of the outer block) then leaves that block locked for ever and every later Block dead-locks")
     ctx.rule("R05e", "the Block tag is cleared when the interpreter is replaced")
     si = prog.func("openpectus.engine.engine:Engine._stop_interpreter")
     ctx.analysed(si)
